@@ -203,6 +203,7 @@ def core_shard(seed: int, shard: int, n: int, opts: dict) -> dict:
     rng = random.Random(f"{seed}-{shard}-{opts.get('salt', 'core')}")
     g = VGen(rng, async_rate=opts.get("async_rate", 0.25), user_rate=opts.get("user_rate", 0.15),
              special_rate=opts.get("special_rate", 0.08))
+    g.zero_factor_rate = opts.get("zero_factor_rate", 0.0)
     cases: List[dict] = list(opts.get("corpus", [])) if shard == 0 else []
     gen = opts.get("gen")
     genf: Callable[[VGen, dict], dict] = gen_core_case if not gen else getattr(__import__("harness." + gen[0], fromlist=[gen[1]]), gen[1])
